@@ -10,7 +10,7 @@ Extraction "model.ml"
   legend legend_of lsp_semantic_tokens decode_rel allowed_classes must_highlight
   decoders cascade enc8 enc16 enc1252 dec8
   integer_new try_hex try_octal try_binary fixed_parse fixed_of_integer try_from_units
-  npu_day npu_hour npu_minute npu_second npu_milli date_literal daytime address string_chars seconds_text read_back
+  npu_day npu_hour npu_minute npu_second npu_milli date_literal daytime address string_chars seconds_text read_back date_text date_read_back
   reports_cycle lsp_run lsp_session cli_run
   rule_unique rule_subrange reassemble mkDecl
   rule_symbolic
